@@ -1,5 +1,5 @@
-\* emission of every explored edge and state, typed mode with pin lattices: assembly 1, block 2, component group 3, components 4-5, pool 6-8, depth 3
-CONSTANTS N = 8  NOrig = 5  NLoc = 2  MaxLevel = 3  Typed = TRUE  MaxSet = 2  NBlk = 1  BlkGrid = TRUE  NGrp = 1  Rx = FALSE  NAsm = 0  Deviant = TRUE  WithOwned = TRUE
+\* emission of every explored edge and state, reactor mode: reactor 1, core 2, pool 3, assemblies 4-5, blocks 6-8 (6 and 8 in assembly 4), pool 9-16, depth 5
+CONSTANTS N = 16  NOrig = 8  NLoc = 3  MaxLevel = 5  Typed = FALSE  MaxSet = 0  NBlk = 0  BlkGrid = FALSE  NGrp = 0  Rx = TRUE  NAsm = 2  Deviant = TRUE  WithOwned = FALSE
 ACTION_CONSTRAINT Emit
 INVARIANT EmitState
 INIT Init
